@@ -1,7 +1,446 @@
-//! C04 harness module (not implemented yet).
+//! C04: the OT-extension sender catches a deviating receiver.
+//! The same corrupted / adversarial first-round messages are fed to the REAL SoftSpokenOTSender::process and to
+//! the extracted model sender (coq/Model/SoftSpoken.v); verdicts (and outputs on acceptance) must match.
+//! The calibrated selective-failure adversary is implemented here (c03::adversary, with the field
+//! multiplication hook) and also obtained from the model's `adv_receiver`; the two messages must be byte-equal.
+use crate::c03::*;
+use crate::oracle::*;
 use crate::util::*;
+use rand::RngCore;
+use sl_oblivious::soft_spoken::{ReceiverOTSeed, SenderOTSeed};
+use std::io::Write;
+use std::sync::atomic::{AtomicUsize, Ordering};
+use std::sync::Mutex;
 
-pub fn run(_kv: &Args) -> i32 {
-    eprintln!("c04: not implemented");
-    2
+struct Inst {
+    name: String,
+    sid: Vec<u8>,
+    sseed: SenderOTSeed,
+    rseed: ReceiverOTSeed,
+    choices: [u8; LB],
+    tape: [u8; SB],
+    honest: Vec<u8>,
+}
+
+#[derive(Clone, Debug, PartialEq)]
+enum Expect {
+    /// must be Err(AbortProtocolAndBanReceiver), no output
+    Reject,
+    /// must be accepted
+    Accept,
+    /// must be accepted with exactly the outputs of the honest message
+    AcceptHonest,
+    /// no demand from the property (degenerate zero hash image); model and implementation must still agree
+    Any,
+}
+
+struct Job {
+    inst: usize,
+    kind: String,
+    detail: String,
+    msg: Vec<u8>,
+    expect: Expect,
+    /// (e, g): ask the model's adv_receiver for the same deviation and compare the message bytes
+    adv: Option<(Vec<[u8; LPB]>, Vec<u8>)>,
+    model: bool,
+}
+
+struct JobResult {
+    real: Verdict,
+    model: Option<Result<Verdict, String>>,
+    model_adv: Option<Result<Vec<u8>, String>>,
+}
+
+fn make_inst(name: &str, sid: Vec<u8>, sseed: SenderOTSeed, rseed: ReceiverOTSeed, choices: [u8; LB], tape: [u8; SB]) -> Inst {
+    let honest = real_recv(&sid, &sseed, &vec![0u8; MSG_BYTES], &choices, &tape, 0).expect("receiver panicked").0;
+    Inst { name: name.into(), sid, sseed, rseed, choices, tape, honest }
+}
+
+fn flip(msg: &[u8], bitpos: usize) -> Vec<u8> {
+    let mut m = msg.to_vec();
+    m[bitpos >> 3] ^= 1 << (bitpos & 7);
+    m
+}
+
+fn field_of(bitpos: usize) -> &'static str {
+    let b = bitpos >> 3;
+    if b < U_BYTES {
+        "u"
+    } else if b < U_BYTES + SB {
+        "x"
+    } else {
+        "t"
+    }
+}
+
+fn hash_parts(m: &[u8]) -> String {
+    format!("{}..{}", hx(&m[..6]), hx(&m[m.len() - 6..]))
+}
+
+fn run_jobs(jobs: &[Job], insts: &[Inst], honest_out: &[Option<(Vec<u8>, Vec<u8>)>], threads: usize) -> (Vec<JobResult>, u64) {
+    let next = AtomicUsize::new(0);
+    let results: Mutex<Vec<Option<JobResult>>> = Mutex::new((0..jobs.len()).map(|_| None).collect());
+    let queries = Mutex::new(0u64);
+    let _ = honest_out;
+    std::thread::scope(|s| {
+        for _ in 0..threads.max(1) {
+            s.spawn(|| {
+                let mut drv: Option<Driver> = None;
+                loop {
+                    let k = next.fetch_add(1, Ordering::SeqCst);
+                    if k >= jobs.len() {
+                        break;
+                    }
+                    let j = &jobs[k];
+                    let it = &insts[j.inst];
+                    let real = real_send(&it.sid, &it.rseed, &j.msg);
+                    let mut model = None;
+                    let mut model_adv = None;
+                    if j.model || j.adv.is_some() {
+                        let d = drv.get_or_insert_with(Driver::spawn);
+                        if let Some((e, g)) = &j.adv {
+                            let eb: Vec<u8> = e.iter().flat_map(|r| r.iter().copied()).collect();
+                            model_adv = Some(
+                                d.run("c03.adv", &[hx(&it.sid), hx(bytemuck::bytes_of(&it.sseed.otp_enc_keys)), hx(&it.choices), hx(&it.tape), hx(&eb), hx(g)])
+                                    .map(|r| unhx(&r[0])),
+                            );
+                        }
+                        if j.model {
+                            model = Some(model_send(d, &it.sid, &it.rseed, &j.msg));
+                        }
+                    }
+                    results.lock().unwrap()[k] = Some(JobResult { real, model, model_adv });
+                }
+                if let Some(d) = drv {
+                    *queries.lock().unwrap() += d.queries;
+                }
+            });
+        }
+    });
+    let q = *queries.lock().unwrap();
+    (results.into_inner().unwrap().into_iter().map(|r| r.unwrap()).collect(), q)
+}
+
+pub fn run(kv: &Args) -> i32 {
+    let seed = kv.u64("seed", 1);
+    let out = kv.str("out", "/verif/build/run/C04");
+    std::fs::create_dir_all(&out).unwrap();
+    let thorough = kv.thorough();
+    let threads = kv.u64("threads", 8) as usize;
+    let mut r = rng(seed, "c04");
+    let mut log = std::fs::File::create(format!("{out}/cases.txt")).unwrap();
+
+    // ---- base instances
+    let mut insts: Vec<Inst> = vec![];
+    let n_inst = if thorough { 5 } else { 2 };
+    for k in 0..n_inst {
+        let sid_len = [32usize, 0, 100, 1, 32][k % 5];
+        let mut sid = vec![0u8; sid_len];
+        r.fill_bytes(&mut sid);
+        // instance 1 has punctured indices 0 / 15 alternating (block 0 -> 0, blocks 31, 63 -> 15)
+        let (sseed, rseed, sname) = seed_set([0usize, 3, 5, 4, 2][k % 5], seed, 1000 + k, &mut r);
+        let (choices, cname) = choice_vector([6usize, 6, 0, 1, 3][k % 5], &mut r);
+        let mut tape = [0u8; SB];
+        r.fill_bytes(&mut tape);
+        insts.push(make_inst(&format!("inst{k}[sid{sid_len},{sname},{cname}]"), sid, sseed, rseed, choices, tape));
+    }
+    // degenerate instance: every punctured index 0 (packed_nabla = 0): x is never looked at
+    {
+        let mut sid = vec![0u8; 32];
+        r.fill_bytes(&mut sid);
+        let (sseed, rseed, _) = seed_set(1, seed, 2000, &mut r);
+        let (choices, _) = choice_vector(6, &mut r);
+        let mut tape = [0u8; SB];
+        r.fill_bytes(&mut tape);
+        insts.push(make_inst("inst-nabla0[sid32,delta0,random]", sid, sseed, rseed, choices, tape));
+    }
+    let degenerate = insts.len() - 1;
+    for it in &insts {
+        writeln!(log, "instance {} sid={} choices={} tape={} random_choices={} enc_keys={}", it.name, hx(&it.sid), hx(&it.choices), hx(&it.tape),
+            hx(&it.rseed.random_choices), hx(bytemuck::bytes_of(&it.sseed.otp_enc_keys))).unwrap();
+    }
+
+    let mut jobs: Vec<Job> = vec![];
+    // ---- honest messages
+    for (k, it) in insts.iter().enumerate() {
+        jobs.push(Job { inst: k, kind: "honest".into(), detail: String::new(), msg: it.honest.clone(), expect: Expect::AcceptHonest, adv: None, model: true });
+    }
+    let n_main = insts.len() - 1;
+    // ---- single-bit flips: 3 fields x N positions (model + real)
+    let per_field = if thorough { 128 } else { 64 };
+    for (field, lo, len) in [("u", 0usize, U_BYTES * 8), ("x", U_BYTES * 8, SB * 8), ("t", (U_BYTES + SB) * 8, ROWS * SB * 8)] {
+        for n in 0..per_field {
+            let k = n % n_main;
+            let pos = lo + (r.next_u64() as usize) % len;
+            jobs.push(Job { inst: k, kind: format!("bitflip-{field}"), detail: format!("bit {pos}"), msg: flip(&insts[k].honest, pos),
+                expect: Expect::Reject, adv: None, model: true });
+        }
+    }
+    // boundary positions of every field
+    for pos in [0usize, U_BYTES * 8 - 1, U_BYTES * 8, (U_BYTES + SB) * 8 - 1, (U_BYTES + SB) * 8, MSG_BYTES * 8 - 1,
+                (U_BYTES - LPB) * 8, (U_BYTES - SB) * 8 + 3, (MSG_BYTES - SB) * 8] {
+        jobs.push(Job { inst: 0, kind: format!("bitflip-{}", field_of(pos)), detail: format!("boundary bit {pos}"), msg: flip(&insts[0].honest, pos),
+            expect: Expect::Reject, adv: None, model: true });
+    }
+    // degenerate instance: x flips are accepted (with the honest outputs), t and u flips rejected
+    for n in 0..4 {
+        let it = &insts[degenerate];
+        let px = U_BYTES * 8 + (r.next_u64() as usize) % (SB * 8);
+        jobs.push(Job { inst: degenerate, kind: "bitflip-x-nabla0".into(), detail: format!("bit {px}"), msg: flip(&it.honest, px), expect: Expect::AcceptHonest, adv: None, model: n < 2 });
+        let pt = (U_BYTES + SB) * 8 + (r.next_u64() as usize) % (ROWS * SB * 8);
+        jobs.push(Job { inst: degenerate, kind: "bitflip-t".into(), detail: format!("nabla0 bit {pt}"), msg: flip(&it.honest, pt), expect: Expect::Reject, adv: None, model: n < 2 });
+        let pu = (r.next_u64() as usize) % (U_BYTES * 8);
+        jobs.push(Job { inst: degenerate, kind: "bitflip-u".into(), detail: format!("nabla0 bit {pu}"), msg: flip(&it.honest, pu), expect: Expect::Reject, adv: None, model: n < 2 });
+    }
+    // ---- multi-bit, overwritten and swapped fields
+    let n_multi = if thorough { 40 } else { 6 };
+    for n in 0..n_multi {
+        let k = n % n_main;
+        let mut m = insts[k].honest.clone();
+        let nb = 2 + (r.next_u32() % 15) as usize;
+        let mut ps = vec![];
+        for _ in 0..nb {
+            let p = (r.next_u64() as usize) % (MSG_BYTES * 8);
+            m = flip(&m, p);
+            ps.push(p);
+        }
+        jobs.push(Job { inst: k, kind: "multibit".into(), detail: format!("bits {:?}", ps), msg: m, expect: Expect::Reject, adv: None, model: true });
+    }
+    {
+        let xo = U_BYTES;
+        let to = U_BYTES + SB;
+        let h = &insts[0].honest;
+        let mut v: Vec<(&str, Vec<u8>)> = vec![];
+        let mut m = h.clone(); m[xo..xo + SB].fill(0); v.push(("overwrite-x-zero", m));
+        let mut m = h.clone(); m[xo..xo + SB].fill(0xff); v.push(("overwrite-x-ff", m));
+        let mut m = h.clone(); m[to + 5 * SB..to + 6 * SB].fill(0); v.push(("overwrite-t-row5-zero", m));
+        let mut m = h.clone(); m[to..].fill(0); v.push(("overwrite-t-zero", m));
+        let mut m = h.clone(); m[63 * LPB..64 * LPB].fill(0); v.push(("overwrite-u-row63-zero", m));
+        let mut m = h.clone(); m[..U_BYTES].fill(0); v.push(("overwrite-u-zero", m));
+        v.push(("overwrite-all-zero", vec![0u8; MSG_BYTES]));
+        let mut m = h.clone(); for k in 0..SB { m.swap(to + k, to + 255 * SB + k); } v.push(("swap-t-rows-0-255", m));
+        let mut m = h.clone(); for k in 0..SB { m.swap(to + 4 * SB + k, to + 5 * SB + k); } v.push(("swap-t-rows-4-5", m));
+        let mut m = h.clone(); for k in 0..LPB { m.swap(k, 63 * LPB + k); } v.push(("swap-u-rows-0-63", m));
+        let mut m = h.clone(); for k in 0..SB { m.swap(xo + k, to + k); } v.push(("swap-x-t0", m));
+        let mut m = h.clone(); for k in 0..SB { m.swap(xo + k, xo - SB + k); } v.push(("swap-x-utail", m));
+        for (name, m) in v {
+            jobs.push(Job { inst: 0, kind: name.split('-').next().unwrap().to_string(), detail: name.into(), msg: m, expect: Expect::Reject, adv: None, model: true });
+        }
+    }
+    // ---- splices from another session / seed set / choice vector (check values not re-derived)
+    {
+        let it = &insts[0];
+        let mut sid2 = it.sid.clone();
+        sid2[0] ^= 1;
+        let other_sid = real_recv(&sid2, &it.sseed, &vec![0u8; MSG_BYTES], &it.choices, &it.tape, 0).unwrap().0;
+        let mut sid3 = it.sid.clone();
+        sid3.push(0);
+        let other_sid_ext = real_recv(&sid3, &it.sseed, &vec![0u8; MSG_BYTES], &it.choices, &it.tape, 0).unwrap().0;
+        let (sseed2, _, _) = seed_set(5, seed, 3000, &mut r);
+        let other_seed = real_recv(&it.sid, &sseed2, &vec![0u8; MSG_BYTES], &it.choices, &it.tape, 0).unwrap().0;
+        let (choices2, _) = choice_vector(6, &mut r);
+        let other_choice = real_recv(&it.sid, &it.sseed, &vec![0u8; MSG_BYTES], &choices2, &it.tape, 0).unwrap().0;
+        let mut c3 = it.choices;
+        c3[17] ^= 0x10;
+        let near_choice = real_recv(&it.sid, &it.sseed, &vec![0u8; MSG_BYTES], &c3, &it.tape, 0).unwrap().0;
+        let mut tape2 = it.tape;
+        tape2[0] ^= 1;
+        let other_tape = real_recv(&it.sid, &it.sseed, &vec![0u8; MSG_BYTES], &it.choices, &tape2, 0).unwrap().0;
+        let xo = U_BYTES;
+        let to = U_BYTES + SB;
+        let splice = |a: &[u8], b: &[u8], c: &[u8]| -> Vec<u8> { [&a[..xo], &b[xo..to], &c[to..]].concat() };
+        let h = &it.honest;
+        let v: Vec<(&str, Vec<u8>)> = vec![
+            ("cross-session-whole", other_sid.clone()),
+            ("cross-session-extended-whole", other_sid_ext),
+            ("cross-session-u", splice(&other_sid, h, h)),
+            ("cross-session-xt", splice(h, &other_sid, &other_sid)),
+            ("cross-seed-whole", other_seed.clone()),
+            ("cross-seed-u", splice(&other_seed, h, h)),
+            ("cross-seed-t", splice(h, h, &other_seed)),
+            ("cross-choice-u", splice(&other_choice, h, h)),
+            ("cross-choice-x", splice(h, &other_choice, h)),
+            ("cross-choice-t", splice(h, h, &other_choice)),
+            ("cross-choice-xt", splice(h, &other_choice, &other_choice)),
+            ("cross-choice-ux", splice(&other_choice, &other_choice, h)),
+            ("cross-choice-near-u", splice(&near_choice, h, h)),
+            ("cross-choice-near-xt", splice(h, &near_choice, &near_choice)),
+            ("cross-tape-u", splice(&other_tape, h, h)),
+            ("cross-tape-xt", splice(h, &other_tape, &other_tape)),
+        ];
+        for (name, m) in v {
+            let kind = name.splitn(3, '-').take(2).collect::<Vec<_>>().join("-");
+            jobs.push(Job { inst: 0, kind, detail: name.into(), msg: m, expect: Expect::Reject, adv: None, model: true });
+        }
+        // a whole honest message for another choice vector / tape is of course accepted
+        jobs.push(Job { inst: 0, kind: "honest-other-choice".into(), detail: String::new(), msg: other_choice, expect: Expect::Accept, adv: None, model: true });
+    }
+    // ---- calibrated selective-failure adversary
+    let n_cal = kv.u64("calibrated", if thorough { 2000 } else { 32 }) as usize;
+    let n_cal_model = if thorough { 96 } else { n_cal };
+    for n in 0..n_cal {
+        let k = if n % 3 == 2 { 0 } else { 1 % n_main };
+        let it = &insts[k];
+        let mut e = vec![[0u8; LPB]; TREES];
+        let mut g = vec![0u8; TREES];
+        // which blocks deviate: one of 0 / 31 / 63, sometimes several, thorough: also random blocks
+        let blocks: Vec<usize> = match n % 8 {
+            0 | 1 | 2 => vec![[0usize, 31, 63][n % 3]],
+            3 => vec![0, 31, 63],
+            4 => vec![31, 63],
+            5 => vec![[0usize, 31, 63][(n / 8) % 3]],
+            _ => vec![if thorough { (r.next_u32() % 64) as usize } else { [63usize, 0, 31][(n / 8) % 3] }],
+        };
+        // guess policy per block: right / wrong / zero
+        let policy = (n / 3) % 4;
+        let mut all_right = true;
+        let mut desc = vec![];
+        for (bi, &b) in blocks.iter().enumerate() {
+            match (n / 2) % 3 {
+                0 => r.fill_bytes(&mut e[b]),
+                1 => {
+                    let p = (r.next_u32() as usize) % (LPB * 8);
+                    e[b][p >> 3] = 1 << (p & 7);
+                }
+                _ => r.fill_bytes(&mut e[b][LB..]),
+            }
+            let d = it.rseed.random_choices[b];
+            g[b] = match policy {
+                0 => d,
+                1 => d ^ (1 << (r.next_u32() % 4)),
+                2 => 0,
+                _ => if bi == 0 { d } else { (r.next_u32() % 16) as u8 },
+            };
+            if g[b] != d {
+                all_right = false;
+            }
+            desc.push(format!("block {b} delta {d} guess {}", g[b]));
+        }
+        let (msg, images) = adversary(&it.sid, &it.sseed, &it.choices, &it.tape, &e, &g);
+        let degenerate_image = blocks.iter().any(|&b| images[b] == [0u8; SB]);
+        let zero_guess = blocks.iter().all(|&b| g[b] == 0);
+        let expect = if degenerate_image {
+            Expect::Any
+        } else if all_right && zero_guess {
+            Expect::AcceptHonest
+        } else if all_right {
+            Expect::Accept
+        } else {
+            Expect::Reject
+        };
+        let kind = format!("calibrated-{}", if all_right { if zero_guess { "zero-right" } else { "right" } } else if zero_guess { "zero-wrong" } else { "wrong" });
+        let with_model = n < n_cal_model;
+        jobs.push(Job { inst: k, kind, detail: desc.join(", "), msg, expect, adv: if with_model { Some((e, g)) } else { None }, model: with_model });
+    }
+
+    // ---- run
+    let honest_out: Vec<Option<(Vec<u8>, Vec<u8>)>> = insts.iter().map(|it| match real_send(&it.sid, &it.rseed, &it.honest) {
+        Verdict::Ok(a, b) => Some((a, b)),
+        _ => None,
+    }).collect();
+    let (results, queries) = run_jobs(&jobs, &insts, &honest_out, threads);
+
+    let mut n_eval = 0u64;
+    let mut n_mut = 0u64;
+    let mut disagreements: Vec<String> = vec![];
+    let mut oracle_fail: Vec<String> = vec![];
+    let mut samples: Vec<String> = vec![];
+    let mut kinds: std::collections::BTreeMap<String, u64> = Default::default();
+    for (j, res) in jobs.iter().zip(&results) {
+        let it = &insts[j.inst];
+        *kinds.entry(j.kind.clone()).or_default() += 1;
+        if j.kind != "honest" {
+            n_mut += 1;
+        }
+        let id = format!("{} {} [{}] on {}", j.kind, j.detail, hash_parts(&j.msg), it.name);
+        writeln!(log, "{id} -> real {} model {}", res.real.tag(), match &res.model { Some(Ok(v)) => v.tag(), Some(Err(e)) => e.clone(), None => "-".into() }).unwrap();
+        if let Some(m) = &res.model {
+            n_eval += 1;
+            match m {
+                Ok(v) if *v == res.real => {}
+                Ok(v) => disagreements.push(format!("sender verdict/output: impl {} model {} -- {id}", res.real.tag(), v.tag())),
+                Err(e) => disagreements.push(format!("sender model error {e} -- {id}")),
+            }
+        }
+        if let Some(m) = &res.model_adv {
+            n_eval += 1;
+            match m {
+                Ok(b) if *b == j.msg => {}
+                Ok(b) => disagreements.push(format!("adversary message: harness vs model adv_receiver differ at byte {:?} -- {id}",
+                    b.iter().zip(&j.msg).position(|(x, y)| x != y))),
+                Err(e) => disagreements.push(format!("adv_receiver model error {e} -- {id}")),
+            }
+        }
+        if samples.len() < 6 && (j.kind.starts_with("calibrated") || samples.len() < 3) {
+            samples.push(format!("{id} -> {}", res.real.tag()));
+        }
+        // the property itself on the real sender
+        let replay = || format!("{id}; sid={} choices={} tape={} random_choices={} message={}", hx(&it.sid), hx(&it.choices), hx(&it.tape), hx(&it.rseed.random_choices), hx(&j.msg));
+        if j.msg == it.honest && j.kind != "honest" {
+            continue; // a corruption that happens to be the identity
+        }
+        match (&j.expect, &res.real) {
+            (Expect::Any, _) => {}
+            (Expect::Reject, Verdict::Err(1)) => {}
+            (Expect::Reject, other) => oracle_fail.push(format!("deviating message not rejected with the ban error (got {}) -- {}", other.tag(), replay())),
+            (Expect::Accept, Verdict::Ok(..)) => {}
+            (Expect::AcceptHonest, Verdict::Ok(a, b)) => {
+                match &honest_out[j.inst] {
+                    Some((h0, h1)) if h0 == a && h1 == b => {}
+                    _ => oracle_fail.push(format!("accepted, but the sender's outputs differ from those of the honest message -- {}", replay())),
+                }
+            }
+            (Expect::Accept | Expect::AcceptHonest, other) => oracle_fail.push(format!("message that must be accepted was not (got {}) -- {}", other.tag(), replay())),
+        }
+    }
+
+    // ---- thorough: EVERY bit position of the first-round message against the real sender
+    let mut exhaustive = 0u64;
+    if thorough || kv.get("exhaustive").is_some() {
+        let it = &insts[0];
+        let next = AtomicUsize::new(0);
+        let bad: Mutex<Vec<(usize, String)>> = Mutex::new(vec![]);
+        let total = MSG_BYTES * 8;
+        std::thread::scope(|s| {
+            for _ in 0..threads.max(1) {
+                s.spawn(|| loop {
+                    let p = next.fetch_add(1, Ordering::SeqCst);
+                    if p >= total {
+                        break;
+                    }
+                    let v = real_send(&it.sid, &it.rseed, &flip(&it.honest, p));
+                    if v != Verdict::Err(1) {
+                        bad.lock().unwrap().push((p, v.tag()));
+                    }
+                });
+            }
+        });
+        exhaustive = total as u64;
+        let mut bad = bad.into_inner().unwrap();
+        bad.sort();
+        for (p, tag) in bad.iter().take(5) {
+            oracle_fail.push(format!("exhaustive sweep: flipping bit {p} (field {}) of the honest message is not rejected (got {tag}) -- instance {} sid={} choices={} tape={} random_choices={}",
+                field_of(*p), it.name, hx(&it.sid), hx(&it.choices), hx(&it.tape), hx(&it.rseed.random_choices)));
+        }
+        *kinds.entry("exhaustive-bitflip-real-only".into()).or_default() += total as u64;
+    }
+
+    let mut f = std::fs::File::create(format!("{out}/result.txt")).unwrap();
+    writeln!(f, "evaluations {n_eval}").unwrap();
+    writeln!(f, "mutations {n_mut}").unwrap();
+    writeln!(f, "oracle_queries {queries}").unwrap();
+    writeln!(f, "exhaustive_bit_positions {exhaustive}").unwrap();
+    for (k, v) in &kinds {
+        writeln!(f, "kind {k} {v}").unwrap();
+    }
+    for s in &samples {
+        writeln!(f, "SAMPLE {s}").unwrap();
+    }
+    for d in &disagreements {
+        writeln!(f, "DISAGREE {d}").unwrap();
+    }
+    for d in &oracle_fail {
+        writeln!(f, "ORACLE {d}").unwrap();
+    }
+    0
 }
